@@ -3,7 +3,8 @@
    executor oracle (pend = IsPodEvicted answers, okf = Evict results); nothing is assumed about
    the task tables, the lists or the oracle. *)
 From Coq Require Import List ZArith Bool.
-From Verif Require Import C11.Model C11.Spec C11.Proofs.
+From Verif Require Import Lib.SortX C11.Model C11.Spec C11.Proofs C11.ModelEvict C11.SpecEvict C11.ProofsEvict.
+From Coq Require Import Permutation Sorted.
 Import ListNotations.
 Open Scope Z_scope.
 
@@ -103,6 +104,60 @@ Theorem c11_exhaustive : forall pend okf ts j tk k e,
   \/ In (EEvict j j k false) (tr_of pend okf ts).
 Proof. exact model_exhaustive. Qed.
 Print Assumptions c11_exhaustive.
+
+(* ---------- strategy level (memoryEvict / cpuEvict): eligibility and published order ---------- *)
+(* the by-priority victim lists (MemoryEvict, MemoryAllocatableEvict, CPUEvict,
+   CPUAllocatableEvict) contain exactly the eligible pods ... *)
+Theorem c11_eligible : forall f thr sub pods p,
+  In p (build_prio f thr sub pods) <->
+  In p pods /\ p_active p = true /\ allow f p = true /\ eff_prio p <= thr
+  /\ p_enabled p = true /\ p_hasmetric p = true.
+Proof. exact build_prio_in_spec. Qed.
+Print Assumptions c11_eligible.
+
+(* ... and are sorted by eviction priority, priority, label priority, then usage/request
+   (descending); no pod twice *)
+Theorem c11_published_order : forall f thr sub pods,
+  NoDup (map p_id pods) ->
+  StronglySorted (fun a b => prio_leb sub a b = true) (build_prio f thr sub pods)
+  /\ list_ok (eligible_prio f thr) (prio_less sub) (build_prio f thr sub pods).
+Proof. exact (fun f thr sub pods H => conj (build_prio_sorted f thr sub pods) (build_prio_list_ok f thr sub pods H)). Qed.
+Print Assumptions c11_published_order.
+
+(* the best-effort lists (BEMemoryEvict, BECPUEvict) contain exactly the BE pods that did not
+   opt out *)
+Theorem c11_eligible_be : forall f pods p,
+  (In p (build_be_mem f pods) <-> In p pods /\ p_be p = true /\ allow f p = true)
+  /\ (In p (build_be_cpu f pods) <-> In p pods /\ p_be p = true /\ allow f p = true).
+Proof. exact build_be_in_spec. Qed.
+Print Assumptions c11_eligible_be.
+
+(* BEMemoryEvict's list is sorted by (priority, usage desc with metric-less pods last, name)
+   when every pod carries a spec.priority; partial: the BECPUEvict comparator (float64
+   usage/request ratio) is only checked on the implementation's lists, not proved transitive *)
+Theorem c11_be_order_partial : forall f pods,
+  NoDup (map p_id pods) -> (forall p, In p pods -> p_prionil p = false) ->
+  list_ok (eligible_be f) be_mem_less (build_be_mem f pods).
+Proof. exact build_be_mem_list_ok. Qed.
+Print Assumptions c11_be_order_partial.
+
+(* end to end: whatever the executor does, every Evict call / already-evicted hit of
+   memoryEvict and cpuEvict concerns a pod of the node that the calling feature may take *)
+Theorem c11_victims_eligible_mem : forall c pods pend okf pre ev suf,
+  fst (kill_and_evict pend okf (to_tasks (mem_ptasks c pods))) = pre ++ ev :: suf ->
+  exists pt i, nth_error (mem_ptasks c pods) (ev_rt ev) = Some pt
+               /\ nth_error (pt_infos pt) (ev_k ev) = Some i
+               /\ In (i_pod i) pods /\ elig_for c (pt_feature pt) (i_pod i) = true.
+Proof. exact (fun c pods pend okf => strategy_victims_eligible c pods _ pend okf (mem_ptasks_eligible c pods)). Qed.
+Print Assumptions c11_victims_eligible_mem.
+
+Theorem c11_victims_eligible_cpu : forall c pods pend okf pre ev suf,
+  fst (kill_and_evict pend okf (to_tasks (cpu_ptasks c pods))) = pre ++ ev :: suf ->
+  exists pt i, nth_error (cpu_ptasks c pods) (ev_rt ev) = Some pt
+               /\ nth_error (pt_infos pt) (ev_k ev) = Some i
+               /\ In (i_pod i) pods /\ elig_for c (pt_feature pt) (i_pod i) = true.
+Proof. exact (fun c pods pend okf => strategy_victims_eligible c pods _ pend okf (cpu_ptasks_eligible c pods)). Qed.
+Print Assumptions c11_victims_eligible_cpu.
 
 (* D6 (known finding): the full-strength clause "every victim releases something its task is
    still short of" is FALSE of the faithful model *)
